@@ -1,8 +1,8 @@
 import LunaVerif.Lemmas.C25RxFront
 /-!
-# C25 receive chain, front end (synchronizers, line-state FSM, clock recovery, NRZI decoder) under CLOCK DRIFT
+# C25 receive chain, front end (synchronizers, line-state FSM, clock recovery, NRZI decoder) under CLOCK DRIFT and SKEW
 
-The line is a sequence of *bit cells* `(symbol, number of 48 MHz samples)`: a transmitter whose bit clock is off
+The line is a sequence of *bit cells* `(symbol, number of 48 MHz samples, first sample)`: a transmitter whose bit clock is off
 against the receiver's 48 MHz sampler produces cells of 4 samples with, now and then, a cell of 3 (fast transmitter)
 or 5 (slow transmitter) samples (`dwave`).  `RxClockDataRecovery` re-synchronises `line_state_phase` on every line
 transition (the FSM passes through `DT`, which clears the phase counter) and free-runs, one strobe per four samples,
@@ -19,6 +19,12 @@ along: then exactly one strobe falls into every cell, on a sample of that cell (
 to the back end are those of the nominal-rate reception, `dbits_bits`; only the number of cycles between two strobes
 varies, 3, 4 or 5).
 
+Skew: at a J↔K transition both lines switch; the synchronizers may see them switch one sample apart, so that the first
+sample of the new cell shows SE0 (falling line first) or SE1 (rising line first).  A cell carries what its first sample
+shows (`Cell`, `firstIn`, `skewOk1`); the line FSM leaves the old state on that sample as it would on the new symbol,
+enters `DT`, and reads the settled pair one cycle later, so the only trace is in the second synchronizer stage of
+`Gk … 2 g`; `blockD` covers all combinations.
+
 `track_of_drift`: a stream is trackable when every cell has 3, 4 or 5 samples, two cells of length ≠ 4 are at least
 `M` cells apart (`driftOk M`), and no symbol is repeated more than `L < M` times (`runsOk L`; bit stuffing -- a
 transition at least every seven bit times -- gives `L = 7`, so `M = 8` will do; ±0.25 % gives `M ≥ 99`).
@@ -33,33 +39,54 @@ def rep (n : Nat) (x : Sym) : List In := List.replicate n (symIn x)
 theorem rep_add (a b : Nat) (x : Sym) : rep a x ++ rep b x = rep (a + b) x := by
   simp only [rep, List.replicate_append_replicate]
 
-/-- sampling of a stream of bit cells `(symbol, number of samples)` -/
-def dwave : List (Sym × Nat) → List In
-  | [] => []
-  | (x, n) :: w => rep n x ++ dwave w
+/-- A bit cell: symbol, number of samples, and what its FIRST sample shows: `none` = the symbol (both lines switched in
+the same sample), `some false` = SE0 (at a J↔K transition the falling line was seen one sample before the rising
+one), `some true` = SE1 (the rising line first). -/
+abbrev Cell := Sym × Nat × Option Bool
 
-theorem dwave_append (a b : List (Sym × Nat)) : dwave (a ++ b) = dwave a ++ dwave b := by
+def firstIn (x : Sym) : Option Bool → In
+  | none => symIn x
+  | some false => ⟨false, false⟩
+  | some true => ⟨true, true⟩
+
+/-- the first `n ≥ 1` samples of a cell with symbol `x` -/
+def cellIn (x : Sym) (n : Nat) (g : Option Bool) : List In := firstIn x g :: rep (n - 1) x
+
+theorem cellIn_add (x : Sym) (a b : Nat) (g : Option Bool) (ha : 1 ≤ a) : cellIn x a g ++ rep b x = cellIn x (a + b) g := by
+  simp only [cellIn, List.cons_append, rep_add]
+  congr 2; omega
+
+/-- a skewed first sample only where both lines switch: between J and K (`p` = the symbol before) -/
+def skewOk1 (p x : Sym) (g : Option Bool) : Bool := g.isNone || ((p == .J && x == .K) || (p == .K && x == .J))
+
+/-- sampling of a stream of bit cells -/
+def dwave : List Cell → List In
+  | [] => []
+  | (x, n, g) :: w => cellIn x n g ++ dwave w
+
+theorem dwave_append (a b : List Cell) : dwave (a ++ b) = dwave a ++ dwave b := by
   induction a with
   | nil => rfl
-  | cons x xs ih => obtain ⟨s, n⟩ := x; simp only [List.cons_append, dwave, ih, List.append_assoc]
+  | cons x xs ih => obtain ⟨s, n, g⟩ := x; simp only [List.cons_append, dwave, ih, List.append_assoc]
 
-/-- nominal rate is the special case of four samples in every cell -/
-theorem dwave_nominal (w : List Sym) : dwave (w.map (·, 4)) = wave w := by
+/-- nominal rate is the special case of four clean samples in every cell -/
+theorem dwave_nominal (w : List Sym) : dwave (w.map (·, 4, none)) = wave w := by
   induction w with
   | nil => rfl
   | cons x xs ih => simp only [List.map, dwave, wave, ih]; rfl
 
 /-- The front end in the cycle that presents the bit `od` of the cell with symbol `c` on `o_valid`/`o_data`/`o_se0`,
-`k` samples of the next cell (symbol `d`) being in.  Without a transition (`d = c`) the cell boundary leaves no
-trace.  With one: after 2 samples the line FSM has not seen it yet; after 3 it is in `DT`; after 4 it has been through
-`DT` (flopped line state all-zero), and `line_state_phase` has been cleared. -/
-def Gk (od : Bool) (c d : Sym) (k : Nat) : Front :=
+`k` samples of the next cell (symbol `d`, first sample `g`) being in.  Without a transition (`d = c`) the cell boundary
+leaves no trace.  With one: after 2 samples the line FSM has not seen it yet (the first sample, skewed or not, is in the
+second synchronizer stage); after 3 it is in `DT`; after 4 it has been through `DT` (flopped line state all-zero), and
+`line_state_phase` has been cleared. -/
+def Gk (od : Bool) (c d : Sym) (k : Nat) (g : Option Bool) : Front :=
   if d = c then G od c d
-  else if k = 2 then { G od c d with line := lineOf c }
+  else if k = 2 then { G od c d with line := lineOf c, p1 := (firstIn d g).usbp, n1 := (firstIn d g).usbn }
   else if k = 4 then { G od c d with line := lineOf d, lsSe0 := false, lsDj := false, lsDk := false, phase := 0 }
   else G od c d
 
-theorem Gk_three (od : Bool) (c d : Sym) : Gk od c d 3 = G od c d := by
+theorem Gk_three (od : Bool) (c d : Sym) (g : Option Bool) : Gk od c d 3 g = G od c d := by
   simp [Gk]
 
 /-- samples of the cell after `d` that are in when the bit of cell `d` (length `n`) is presented -/
@@ -79,39 +106,44 @@ def vblock (n : Nat) (b : Bool × Bool) : List Vdz := (true, b.1, b.2) :: List.r
 
 theorem vblock_four (b : Bool × Bool) : vblock 4 b = bitBlock b := rfl
 
-/-- **one bit cell under drift**: from the cycle presenting cell `c` (`k` samples of cell `d` in), over the other
-`n - k` samples of `d` and the first `nextK` samples of the cell after it. -/
-theorem blockD (od : Bool) (c d e : Sym) (k n : Nat) (h : okCell k c d n = true) :
-    runF (Gk od c d k) (rep (n - k) d ++ rep (nextK k c d n) e) = Gk (bitOf c d) d e (nextK k c d n) ∧
-    traceF (Gk od c d k) (rep (n - k) d ++ rep (nextK k c d n) e) = vblock (n - k + nextK k c d n) (od, se0Of c) := by
-  have key : ∀ (od : Bool) (c d e : Sym) (k n : Fin 6), okCell k.val c d n.val = true →
-      runF (Gk od c d k.val) (rep (n.val - k.val) d ++ rep (nextK k.val c d n.val) e) =
-        Gk (bitOf c d) d e (nextK k.val c d n.val) ∧
-      traceF (Gk od c d k.val) (rep (n.val - k.val) d ++ rep (nextK k.val c d n.val) e) =
+/-- **one bit cell under drift and skew**: from the cycle presenting cell `c` (`k` samples of cell `d` in), over the
+other `n - k` samples of `d` and the first `nextK` samples of the cell after it (`ge` = what its first sample shows). -/
+theorem blockD (od : Bool) (c d e : Sym) (k n : Nat) (gd ge : Option Bool) (h : okCell k c d n = true)
+    (hd : skewOk1 c d gd = true) (he : skewOk1 d e ge = true) :
+    runF (Gk od c d k gd) (rep (n - k) d ++ cellIn e (nextK k c d n) ge) = Gk (bitOf c d) d e (nextK k c d n) ge ∧
+    traceF (Gk od c d k gd) (rep (n - k) d ++ cellIn e (nextK k c d n) ge) =
+      vblock (n - k + nextK k c d n) (od, se0Of c) := by
+  have key : ∀ (gd ge : Option Bool) (od : Bool) (c d e : Sym) (k n : Fin 6), okCell k.val c d n.val = true →
+      skewOk1 c d gd = true → skewOk1 d e ge = true →
+      runF (Gk od c d k.val gd) (rep (n.val - k.val) d ++ cellIn e (nextK k.val c d n.val) ge) =
+        Gk (bitOf c d) d e (nextK k.val c d n.val) ge ∧
+      traceF (Gk od c d k.val gd) (rep (n.val - k.val) d ++ cellIn e (nextK k.val c d n.val) ge) =
         vblock (n.val - k.val + nextK k.val c d n.val) (od, se0Of c) := by
-    intro od c d e
-    cases od <;> cases c <;> cases d <;> cases e <;> decide +kernel
+    intro gd ge od c d e
+    rcases gd with _ | _ | _ <;> rcases ge with _ | _ | _ <;>
+      cases od <;> cases c <;> cases d <;> cases e <;> decide +kernel
   obtain ⟨_, h2, _, h4, _, _, _⟩ := (okCell_iff k c d n).mp h
-  exact key od c d e ⟨k, by omega⟩ ⟨n, by omega⟩ h
+  exact key gd ge od c d e ⟨k, by omega⟩ ⟨n, by omega⟩ h hd he
 
 /-! ### a whole stream -/
 
-/-- the recovered bit clock stays inside the cells over cell `(d, n)` and all of `w`, and ends in the nominal
-position -/
-def track : Nat → Sym → Sym → Nat → List (Sym × Nat) → Bool
-  | k, c, d, n, [] => okCell k c d n && decide (nextK k c d n = 3)
-  | k, c, d, n, (e, ne) :: w => okCell k c d n && track (nextK k c d n) d e ne w
+/-- the recovered bit clock stays inside the cells over cell `(d, n, g)` and all of `w`, and ends in the nominal
+position; skewed first samples only at J↔K transitions -/
+def track : Nat → Sym → Sym → Nat → Option Bool → List Cell → Bool
+  | k, c, d, n, g, [] => okCell k c d n && skewOk1 c d g && decide (nextK k c d n = 3)
+  | k, c, d, n, g, (e, ne, ge) :: w => okCell k c d n && skewOk1 c d g && track (nextK k c d n) d e ne ge w
 
-/-- the inputs from the presenting cycle of cell `c` on (`k` samples of `(d, n)` are in): the cells of `w` follow,
+/-- the inputs from the presenting cycle of cell `c` on (`k` samples of `(d, n, _)` are in): the cells of `w` follow,
 then three samples of J (idle) -/
-def dblocks : Nat → Sym → Sym → Nat → List (Sym × Nat) → List In
-  | k, c, d, n, [] => rep (n - k) d ++ rep (nextK k c d n) .J
-  | k, c, d, n, (e, ne) :: w => (rep (n - k) d ++ rep (nextK k c d n) e) ++ dblocks (nextK k c d n) d e ne w
+def dblocks : Nat → Sym → Sym → Nat → List Cell → List In
+  | k, c, d, n, [] => rep (n - k) d ++ cellIn .J (nextK k c d n) none
+  | k, c, d, n, (e, ne, ge) :: w =>
+    (rep (n - k) d ++ cellIn e (nextK k c d n) ge) ++ dblocks (nextK k c d n) d e ne w
 
 /-- (cycles until the next strobe, (`o_data`, `o_se0`)) for every strobe from the one presenting cell `c` on -/
-def dbits : Bool → Nat → Sym → Sym → Nat → List (Sym × Nat) → List (Nat × (Bool × Bool))
+def dbits : Bool → Nat → Sym → Sym → Nat → List Cell → List (Nat × (Bool × Bool))
   | od, k, c, d, n, [] => [(n - k + nextK k c d n, (od, se0Of c))]
-  | od, k, c, d, n, (e, ne) :: w =>
+  | od, k, c, d, n, (e, ne, _) :: w =>
     (n - k + nextK k c d n, (od, se0Of c)) :: dbits (bitOf c d) (nextK k c d n) d e ne w
 
 def vblocks : List (Nat × (Bool × Bool)) → List Vdz
@@ -119,70 +151,76 @@ def vblocks : List (Nat × (Bool × Bool)) → List Vdz
   | (n, b) :: l => vblock n b ++ vblocks l
 
 /-- regrouping the sample stream at the strobes -/
-theorem dwave_dblocks (w : List (Sym × Nat)) : ∀ (k : Nat) (c d : Sym) (n : Nat), track k c d n w = true →
-    rep k d ++ dblocks k c d n w = dwave ((d, n) :: w) ++ rep 3 .J := by
+theorem dwave_dblocks (w : List Cell) : ∀ (k : Nat) (c d : Sym) (n : Nat) (g : Option Bool),
+    track k c d n g w = true →
+    cellIn d k g ++ dblocks k c d n w = dwave ((d, n, g) :: w) ++ rep 3 .J := by
   induction w with
   | nil =>
-    intro k c d n h
+    intro k c d n g h
     simp only [track, Bool.and_eq_true, decide_eq_true_eq] at h
-    obtain ⟨h1, h2⟩ := h
-    obtain ⟨_, _, _, _, h5, _, _⟩ := (okCell_iff k c d n).mp h1
-    simp only [dblocks, dwave, h2, List.append_nil, ← List.append_assoc, rep_add]
-    congr 2; omega
+    obtain ⟨⟨h1, _⟩, h2⟩ := h
+    obtain ⟨h3, _, _, _, h5, _, _⟩ := (okCell_iff k c d n).mp h1
+    have hJ : cellIn .J 3 none = rep 3 .J := rfl
+    simp only [dblocks, dwave, h2, hJ, List.append_nil, ← List.append_assoc, cellIn_add d k (n - k) g (by omega)]
+    congr 3; omega
   | cons x w ih =>
-    intro k c d n h
-    obtain ⟨e, ne⟩ := x
+    intro k c d n g h
+    obtain ⟨e, ne, ge⟩ := x
     simp only [track, Bool.and_eq_true] at h
-    obtain ⟨h1, h2⟩ := h
-    obtain ⟨_, _, _, _, h5, _, _⟩ := (okCell_iff k c d n).mp h1
-    have := ih (nextK k c d n) d e ne h2
+    obtain ⟨⟨h1, _⟩, h2⟩ := h
+    obtain ⟨h3, _, _, _, h5, _, _⟩ := (okCell_iff k c d n).mp h1
+    have := ih (nextK k c d n) d e ne ge h2
     simp only [dblocks, List.append_assoc]
     rw [this]
-    simp only [dwave, ← List.append_assoc, rep_add]
-    congr 4; omega
+    simp only [dwave, ← List.append_assoc, cellIn_add d k (n - k) g (by omega)]
+    congr 5; omega
 
-/-- **the front end under drift**: from `Gk od c d k`, over a trackable cell stream, the back end is shown one strobe
+/-- **the front end under drift**: from `Gk od c d k g`, over a trackable cell stream, the back end is shown one strobe
 per cell -- the bits of `c`, `d` and all of `w` but its last cell -- and the front end ends in the nominal-rate
 state `G`. -/
-theorem front_blocksD (w : List (Sym × Nat)) : ∀ (od : Bool) (k : Nat) (c d : Sym) (n : Nat),
-    track k c d n w = true →
-    runF (Gk od c d k) (dblocks k c d n w) =
+theorem front_blocksD (w : List Cell) : ∀ (od : Bool) (k : Nat) (c d : Sym) (n : Nat) (g : Option Bool),
+    track k c d n g w = true →
+    runF (Gk od c d k g) (dblocks k c d n w) =
       G (bitOf (prevSym c d (w.map (·.1))) (lastSym d (w.map (·.1)))) (lastSym d (w.map (·.1))) .J ∧
-    traceF (Gk od c d k) (dblocks k c d n w) = vblocks (dbits od k c d n w) := by
+    traceF (Gk od c d k g) (dblocks k c d n w) = vblocks (dbits od k c d n w) := by
   induction w with
   | nil =>
-    intro od k c d n h
+    intro od k c d n g h
     simp only [track, Bool.and_eq_true, decide_eq_true_eq] at h
-    obtain ⟨h1, h2⟩ := h
-    obtain ⟨b1, b2⟩ := blockD od c d .J k n h1
+    obtain ⟨⟨h1, hg⟩, h2⟩ := h
+    obtain ⟨b1, b2⟩ := blockD od c d .J k n g none h1 hg (by simp [skewOk1])
     simp only [dblocks, dbits, vblocks, List.map, lastSym, prevSym, List.append_nil]
     rw [b1, b2, h2, Gk_three]
     exact ⟨rfl, rfl⟩
   | cons x w ih =>
-    intro od k c d n h
-    obtain ⟨e, ne⟩ := x
+    intro od k c d n g h
+    obtain ⟨e, ne, ge⟩ := x
     simp only [track, Bool.and_eq_true] at h
-    obtain ⟨h1, h2⟩ := h
-    obtain ⟨b1, b2⟩ := blockD od c d e k n h1
-    obtain ⟨i1, i2⟩ := ih (bitOf c d) (nextK k c d n) d e ne h2
+    obtain ⟨⟨h1, hg⟩, h2⟩ := h
+    have hge : skewOk1 d e ge = true := by
+      cases w with
+      | nil => simp only [track, Bool.and_eq_true] at h2; exact h2.1.2
+      | cons y w' => obtain ⟨y1, y2, y3⟩ := y; simp only [track, Bool.and_eq_true] at h2; exact h2.1.2
+    obtain ⟨b1, b2⟩ := blockD od c d e k n g ge h1 hg hge
+    obtain ⟨i1, i2⟩ := ih (bitOf c d) (nextK k c d n) d e ne ge h2
     simp only [dblocks, dbits, vblocks, List.map, lastSym, prevSym]
     rw [runF_append, traceF_append, b1, b2, i1, i2]
     exact ⟨rfl, rfl⟩
 
 /-- the bits presented are those of the nominal-rate reception (`front_blocks`) -/
-theorem dbits_bits (w : List (Sym × Nat)) : ∀ (od : Bool) (k : Nat) (c d : Sym) (n : Nat),
+theorem dbits_bits (w : List Cell) : ∀ (od : Bool) (k : Nat) (c d : Sym) (n : Nat),
     (dbits od k c d n w).map (·.2) = (od, se0Of c) :: (symBits c (d :: w.map (·.1))).dropLast := by
   induction w with
   | nil => intro od k c d n; rfl
   | cons x w ih =>
     intro od k c d n
-    obtain ⟨e, ne⟩ := x
+    obtain ⟨e, ne, ge⟩ := x
     have := ih (bitOf c d) (nextK k c d n) d e ne
     simp only [dbits, List.map, this, symBits, List.dropLast]
 
 /-- … and two strobes are 3, 4 or 5 cycles apart -/
-theorem dbits_lens (w : List (Sym × Nat)) : ∀ (od : Bool) (k : Nat) (c d : Sym) (n : Nat),
-    track k c d n w = true → ∀ p ∈ dbits od k c d n w, 3 ≤ p.1 ∧ p.1 ≤ 5 := by
+theorem dbits_lens (w : List Cell) : ∀ (od : Bool) (k : Nat) (c d : Sym) (n : Nat) (g : Option Bool),
+    track k c d n g w = true → ∀ p ∈ dbits od k c d n w, 3 ≤ p.1 ∧ p.1 ≤ 5 := by
   have one : ∀ (k : Nat) (c d : Sym) (n : Nat), okCell k c d n = true →
       3 ≤ n - k + nextK k c d n ∧ n - k + nextK k c d n ≤ 5 := by
     intro k c d n h
@@ -192,19 +230,19 @@ theorem dbits_lens (w : List (Sym × Nat)) : ∀ (od : Bool) (k : Nat) (c d : Sy
     split <;> intros <;> omega
   induction w with
   | nil =>
-    intro od k c d n h p hp
+    intro od k c d n g h p hp
     simp only [track, Bool.and_eq_true, decide_eq_true_eq] at h
     simp only [dbits, List.mem_singleton] at hp
     subst hp
-    exact one k c d n h.1
+    exact one k c d n h.1.1
   | cons x w ih =>
-    intro od k c d n h p hp
-    obtain ⟨e, ne⟩ := x
+    intro od k c d n g h p hp
+    obtain ⟨e, ne, ge⟩ := x
     simp only [track, Bool.and_eq_true] at h
     simp only [dbits, List.mem_cons] at hp
     rcases hp with hp | hp
-    · subst hp; exact one k c d n h.1
-    · exact ih _ _ _ _ _ h.2 p hp
+    · subst hp; exact one k c d n h.1.1
+    · exact ih _ _ _ _ _ ge h.2 p hp
 
 /-! ### the drift envelope -/
 
@@ -230,21 +268,28 @@ theorem endSym_concat (c : Sym) (w : List Sym) (x : Sym) : endSym c (w ++ [x]) =
   | nil => rfl
   | cons d w ih => exact ih d
 
+/-- skewed first samples only at J↔K transitions (`p` = the symbol before the stream) -/
+def skewOk : Sym → List Cell → Bool
+  | _, [] => true
+  | p, (x, _, g) :: w => skewOk1 p x g && skewOk x w
+
 /-- **the envelope is trackable**: a slipped sample is forgotten at the next transition, which comes within `L` cells
 (bit stuffing: `L = 7`); the next slip is at least `M ≥ L + 1` cells away.  Invariant: `k ≠ 3` only if the cell of
 length ≠ 4 lies in the current run of `j ≤ L` equal symbols (`g < j`).  The cells after `cells` are handled by the
 caller (`tail`). -/
-theorem track_of_drift (L M : Nat) (hL : 1 ≤ L) (hLM : L + 1 ≤ M) (cells : List (Sym × Nat)) :
-    ∀ (k : Nat) (c : Sym) (j g : Nat) (d : Sym) (n : Nat) (tail : List (Sym × Nat)),
+theorem track_of_drift (L M : Nat) (hL : 1 ≤ L) (hLM : L + 1 ≤ M) (cells : List Cell) :
+    ∀ (k : Nat) (c : Sym) (j g : Nat) (d : Sym) (n : Nat) (gd : Option Bool) (tail : List Cell),
     2 ≤ k → k ≤ 4 → j ≤ L → (k ≠ 3 → g < j) →
-    driftOk M g (n :: cells.map (·.2)) = true → runsOk L c j (d :: cells.map (·.1)) = true →
+    driftOk M g (n :: cells.map (·.2.1)) = true → runsOk L c j (d :: cells.map (·.1)) = true →
+    skewOk c ((d, n, gd) :: cells) = true →
     (∀ k', 2 ≤ k' → k' ≤ 4 → match tail with
       | [] => k' = 3
-      | (e, ne) :: t => track k' (endSym d (cells.map (·.1))) e ne t = true) →
-    track k c d n (cells ++ tail) = true := by
+      | (e, ne, ge) :: t => track k' (endSym d (cells.map (·.1))) e ne ge t = true) →
+    track k c d n gd (cells ++ tail) = true := by
   induction cells with
   | nil =>
-    intro k c j g d n tail hk2 hk4 hj hinv hd hr ht
+    intro k c j g d n gd tail hk2 hk4 hj hinv hd hr hsk ht
+    simp only [skewOk, Bool.and_true] at hsk
     -- this cell
     have hcell : okCell k c d n = true ∧ 2 ≤ nextK k c d n ∧ nextK k c d n ≤ 4 := by
       rw [okCell_iff]
@@ -261,15 +306,19 @@ theorem track_of_drift (L M : Nat) (hL : 1 ≤ L) (hLM : L + 1 ≤ M) (cells : L
     obtain ⟨h1, h2, h3⟩ := hcell
     have := ht (nextK k c d n) h2 h3
     match tail, this with
-    | [], this => simp only [List.append_nil, track, h1, this, decide_true, Bool.and_self]
-    | (e, ne) :: t, this =>
-      simp only [List.nil_append, track, h1, Bool.true_and]
+    | [], this => simp only [List.append_nil, track, h1, hsk, this, decide_true, Bool.and_self]
+    | (e, ne, ge) :: t, this =>
+      simp only [List.nil_append, track, h1, hsk, Bool.true_and]
       exact this
   | cons x cells ih =>
-    intro k c j g d n tail hk2 hk4 hj hinv hd hr ht
-    obtain ⟨e, ne⟩ := x
+    intro k c j g d n gd tail hk2 hk4 hj hinv hd hr hsk ht
+    obtain ⟨e, ne, ge⟩ := x
     simp only [List.map, driftOk, runsOk] at hd hr
-    simp only [List.cons_append, track, Bool.and_eq_true]
+    simp only [skewOk, Bool.and_eq_true] at hsk
+    obtain ⟨hsk1, hsk2⟩ := hsk
+    have hsk' : skewOk d ((e, ne, ge) :: cells) = true := by
+      simp only [skewOk, Bool.and_eq_true]; exact hsk2
+    simp only [List.cons_append, track, Bool.and_eq_true, hsk1, and_true]
     by_cases h4 : n = 4
     · subst h4
       simp only [if_true] at hd
@@ -280,15 +329,15 @@ theorem track_of_drift (L M : Nat) (hL : 1 ≤ L) (hLM : L + 1 ≤ M) (cells : L
         refine ⟨?_, ?_⟩
         · rw [okCell_iff, hn]; omega
         · rw [hn]
-          exact ih k d (j + 1) (g + 1) e ne tail hk2 hk4 hr.1 (fun h => by have := hinv h; omega)
-            (by simpa [driftOk] using hd) (by simpa [runsOk] using hr.2) ht
+          exact ih k d (j + 1) (g + 1) e ne ge tail hk2 hk4 hr.1 (fun h => by have := hinv h; omega)
+            (by simpa [driftOk] using hd) (by simpa [runsOk] using hr.2) hsk' ht
       · simp only [hdc, if_false] at hr
         have hn : nextK k c d 4 = 3 := by simp [nextK, hdc]
         refine ⟨?_, ?_⟩
         · rw [okCell_iff, hn]; omega
         · rw [hn]
-          exact ih 3 d 1 (g + 1) e ne tail (by omega) (by omega) (by omega) (fun h => absurd rfl h)
-            (by simpa [driftOk] using hd) (by simpa [runsOk] using hr) ht
+          exact ih 3 d 1 (g + 1) e ne ge tail (by omega) (by omega) (by omega) (fun h => absurd rfl h)
+            (by simpa [driftOk] using hd) (by simpa [runsOk] using hr) hsk' ht
     · simp only [h4, if_false, Bool.and_eq_true, decide_eq_true_eq] at hd
       obtain ⟨⟨hn35, hg⟩, hd'⟩ := hd
       have hk3 : k = 3 := by
@@ -303,14 +352,14 @@ theorem track_of_drift (L M : Nat) (hL : 1 ≤ L) (hLM : L + 1 ≤ M) (cells : L
         refine ⟨?_, ?_⟩
         · rw [okCell_iff, hn]; omega
         · rw [hn]
-          exact ih (7 - n) d (j + 1) 0 e ne tail (by omega) (by omega) hr.1 (fun _ => by omega)
-            (by simpa [driftOk] using hd') (by simpa [runsOk] using hr.2) ht
+          exact ih (7 - n) d (j + 1) 0 e ne ge tail (by omega) (by omega) hr.1 (fun _ => by omega)
+            (by simpa [driftOk] using hd') (by simpa [runsOk] using hr.2) hsk' ht
       · simp only [hdc, if_false] at hr
         have hn : nextK 3 c d n = 7 - n := by simp [nextK, hdc]
         refine ⟨?_, ?_⟩
         · rw [okCell_iff, hn]; omega
         · rw [hn]
-          exact ih (7 - n) d 1 0 e ne tail (by omega) (by omega) (by omega) (fun _ => by omega)
-            (by simpa [driftOk] using hd') (by simpa [runsOk] using hr) ht
+          exact ih (7 - n) d 1 0 e ne ge tail (by omega) (by omega) (by omega) (fun _ => by omega)
+            (by simpa [driftOk] using hd') (by simpa [runsOk] using hr) hsk' ht
 
 end LunaVerif.FsRx
